@@ -17,15 +17,15 @@ func init() {
 		Quick:      all("./proto", "./internal/impl", "./internal/order", "./encoding/protojson", "./encoding/prototext"),
 		Thorough:   []ConfigLoad{{"default", []string{"./..."}}, {"reflect", []string{"./proto"}}},
 		Run: func(c *Ctx) {
+			if c.P.Config == "reflect" {
+				c.ruleFastPathGateReflect("R-FASTPATH-GATE")
+				return
+			}
 			c.ruleEqualExtSymmetry("R-EQUAL-EXT-SYMMETRY")
 			c.ruleMergeDesc("R-MERGE-DESC")
 			c.ruleConsumeTagRange("R-CONSUMETAG-RANGE", []string{"internal/impl", "proto"}, 4)
 			c.ruleReflEncParity("R-REFL-ENC-PARITY")
 			c.ruleMapEntryParity("R-MAP-ENTRY-PARITY")
-			if c.P.Config == "reflect" {
-				c.ruleFastPathGateReflect("R-FASTPATH-GATE")
-				return
-			}
 			c.ruleKindContext("R-KIND-CONTEXT", []string{"proto", "internal/impl"}, 100)
 			c.ruleFastPathGate("R-FASTPATH-GATE")
 			c.ruleSizeAppend("R-SIZE-APPEND", []string{"internal/impl", "proto"}, sizeAppendNotAnalysed, 130)
